@@ -135,6 +135,7 @@ def cases(ctx):
         [('ATOM', 1100, 0), ('ATOM1', 1300, 4)],
     ]
     small = [s for s in specs if sum(n for _, n, _ in s) <= 400]
+    empty = [('atom', 0, 0)]
     big = [('atom', 4000, 1)]
     nper = ctx.scale(2, 8)
 
@@ -143,6 +144,7 @@ def cases(ctx):
              'domain': B.in_spec_domain(cols if op == 'get' else 'x', kws), 'weight': weight(kws),
              'maxlen': max([len(v) for _, v in kws if isinstance(v, list)] or [0])}
         c['columns'] = cols
+        c['carrier'] = 'np' if len(out) % 3 == 0 else 'py'          # rowID lists as np.int64 (how interface code passes them)
         out.append(c)
 
     # --- every length x sign, on every table name, rotating keys / orders / duplicates / further conditions
@@ -164,6 +166,10 @@ def cases(ctx):
                 cols = rng.choice(['rowID', 'rowID,serial', 'name', 'serial,x,chainID', '*', 'x,y,z'])
                 add(spec, cols, tn, kws, 'length-grid')
                 i += 1
+    # --- an empty table
+    for L in [0, 2, 951, 1901]:
+        for neg in ('', 'no_'):
+            add(empty, rng.choice(['rowID', '*', 'name,x']), 'atom', [(neg + rng.choice(['rowID', 'serial', 'name']), value_list(rng, 'rowID', 0, L, 'asc', 'none'))], 'empty-table')
     # --- a long list on the key `model` (the table has one model, 0)
     for L in [950, 951, 1000, 1901]:
         for neg in ('', 'no_'):
@@ -237,7 +243,7 @@ def search_cases(ctx):
 
 
 def driver_line(c):
-    d = {k: v for k, v in c.items() if k not in ('family', 'spec', 'domain', 'weight', 'maxlen')}
+    d = {k: v for k, v in c.items() if k not in ('family', 'spec', 'domain', 'weight', 'maxlen', 'carrier')}
     if c['op'] == 'hist':
         d['ops'] = [{k: v for k, v in o.items() if k != 'carrier'} for o in c['ops']]
         d.pop('tn', None)
@@ -263,6 +269,8 @@ def impl(ctx, c):
         return steps
     db = obj_of(spec)
     kw = kw_py(c['kw'])
+    if c.get('carrier') == 'np':
+        kw = B.np_carry(kw)
     if c['op'] == 'get_all':
         r = call(lambda: db.get_all(c['columns'], **kw))
     else:
